@@ -22,6 +22,9 @@ def to_jsonable(o):
             else:
                 k = 'r:' + repr(k)
             out[k] = to_jsonable(v)
+        order = list(out)
+        if order != sorted(order):
+            return {'__d': out, '__o': order}      # insertion order matters to some properties (C02)
         return {'__d': out}
     if isinstance(o, tuple):
         return {'__t': [to_jsonable(x) for x in o]}
@@ -54,7 +57,8 @@ def from_jsonable(o):
             return o['__r']
         if '__d' in o:
             out = {}
-            for k, v in o['__d'].items():
+            items = o['__d'].items() if '__o' not in o else [(k, o['__d'][k]) for k in o['__o']]
+            for k, v in items:
                 tag, rest = k[:2], k[2:]
                 if tag == 'b:':
                     k2 = bytes.fromhex(rest)
@@ -90,7 +94,7 @@ def short(o, limit=400):
             if '__b' in x and len(x) == 1:
                 h = x['__b']
                 return 'x' + (h if len(h) <= 96 else h[:64] + '..(%dB)' % (len(h) // 2))
-            if '__d' in x and len(x) == 1:
+            if '__d' in x and len(x) <= 2:
                 return {(k[2:] if k[:2] == 's:' else k): ab(v) for k, v in x['__d'].items()}
             if '__t' in x and len(x) == 1:
                 return [ab(v) for v in x['__t']]
